@@ -363,6 +363,11 @@ func (x *Exec) makeClosure(st *State, lit *ast.FuncLit) Term {
 	f := Term{S: x.d.fresh("clo_"+u.Key, "Fun"), Sort: "Fun", T: x.info.TypeOf(lit)}
 	st.assume(sNot(sEq(f.S, "nilF")))
 	st.closures[f.S] = u
+	if u.Spec == nil && st.approx == "" && x.unit.Pkg.Name == "seq" {
+		// nothing is known about a literal without a contract of its own (no ghost attributes, no refinement): what is proved about
+		// the value it becomes is proved about an unknown function
+		st.approx = fmt.Sprintf("closure literal %s has no contract", u.Name)
+	}
 	if u.Spec != nil && u.Spec.Hint != "" && u.Natural != u.Spec.Hint && st.approx == "" {
 		// the literal got its contract (and ghost attributes) by position only
 		st.approx = fmt.Sprintf("closure contract of %s bound by position: hint %q does not match the literal's natural name %q", u.Name, u.Spec.Hint, u.Natural)
